@@ -128,6 +128,34 @@ inline void table_wrap_mutations(const Enc& e, std::vector<Mut>& out) {
   }
 }
 
+// *Valid* variants of an encoding in which a table that is not enclosed in another entry's frame carries additional entries with
+// ids no definition knows (what a newer revision of the table sends): the count grows beyond the number of entries any reader
+// declares, the extra entries sit before the known ones, after them, or both. The format says unknown ids are skipped.
+inline uint64_t field_uint(const Bytes& b, const Field& f) { uint8_t p = b[f.off]; if (p < 0x80) return p; uint64_t v = 0; for (size_t i = 1; i < f.len && i <= 8; i++) v |= (uint64_t)b[f.off + i] << (8 * (i - 1)); return v; }
+inline void table_unknown_entries_mutations(const Enc& e, std::vector<Mut>& out) {
+  int done = 0;
+  for (size_t fi = 0; fi + 1 < e.fields.size() && done < 3; fi++) {
+    if (e.fields[fi].role != Role::HASH || e.fields[fi + 1].role != Role::COUNT) continue;
+    const Field& cf = e.fields[fi + 1];
+    bool nested = false; for (auto& sp : e.entries) if (sp.val_off <= e.fields[fi].off && e.fields[fi].off < sp.end_off) nested = true;
+    if (nested) continue;
+    size_t front = cf.off + cf.len, back = front; uint64_t present = 0;
+    for (auto& sp : e.entries) if (sp.count_field == fi + 1) { present++; back = std::max(back, sp.end_off); }
+    uint64_t count = field_uint(e.out, cf);
+    done++;
+    for (unsigned extra : {1u, 2u, 9u}) for (int where = 0; where < 3; where++) {
+      auto mk = [&](unsigned n, unsigned salt) { Enc x; for (unsigned j = 0; j < n; j++) { x.put_uint(0x7ffffffffffffe00ull + ((j + salt) % 3), Role::ID, 64); unsigned sz = (j + salt) % 4 == 3 ? 5 : (j + salt) % 4; x.put_uint(sz, Role::SIZE, 64); for (unsigned k = 0; k < sz; k++) x.out.push_back((uint8_t)(0xb9 + k)); } return x.out; };
+      unsigned nf = where == 0 ? extra : where == 1 ? 0 : extra / 2, nb = extra - nf;
+      Bytes m(e.out.begin(), e.out.begin() + cf.off);
+      Enc c; c.put_uint(count + extra, Role::COUNT, 64); m.insert(m.end(), c.out.begin(), c.out.end());
+      Bytes f = mk(nf, 0), b = mk(nb, 1);
+      m.insert(m.end(), f.begin(), f.end()); m.insert(m.end(), e.out.begin() + front, e.out.begin() + back); m.insert(m.end(), b.begin(), b.end()); m.insert(m.end(), e.out.begin() + back, e.out.end());
+      Mut mu; mu.bytes = std::move(m); mu.kind = MutKind::TableOp; mu.desc = fmt("table@%zu: %u entries with unknown ids added (%u before, %u after the %" PRIu64 " present ones)", e.fields[fi].off, extra, nf, nb, present);
+      out.push_back(std::move(mu));
+    }
+  }
+}
+
 // A *valid* variant of an encoding in which every table entry that is not enclosed in another entry's frame declares a
 // larger size and carries that many padding bytes (what a writer with a coarser size estimate would emit).
 inline Bytes pad_outer_entries(const Enc& e, Rng& r) {
